@@ -16,6 +16,11 @@ package rlwe
 //@   property C19
 //@   ensures implies(result == nil, forall(k, 0, len(q), kernelmod(q[k])))
 //@   ensures implies(result == nil, forall(k, 0, len(p), kernelmodP(p[k])))
+// bridge to the basis extension: its hand-unrolled helpers (reconstructRNS, multSum) keep the
+// residues of one coefficient in *[32]uint64 buffers indexed by the position of the modulus in the
+// source basis (by inspection of ring/basis_extension.go), so a chain of more than 32 moduli indexes
+// them out of range (ModUpQtoP from Q, e.g. in the scale-invariant multiplication)
+//@   ensures implies(result == nil, len(q) <= 32 && len(p) <= 32)
 //@   loop 0 invariant 0 <= i && i <= len(q)
 //@   loop 0 invariant forall(k, 0, i, q[k] < 1<<61)
 //@   loop 1 invariant 0 <= i && i <= len(q)
